@@ -299,7 +299,13 @@ def check(recipe) -> list[Fail]:
                 continue
             c2 = np.array(model.coord[id(a2)], dtype=float)
             before = set(map(id, mol.atoms))
-            mol.remove_substituent(a1, a2, ap_label=f"L{next(nlabel)}")
+            # the two atoms are named as objects, as integer indices or by their (unique) labels: AtomLike
+            form = (op[1] // 7) % 3
+            labels_ = [x.label for x in mol.atoms]
+            if form == 2 and (a1.label is None or a2.label is None or labels_.count(a1.label) != 1 or labels_.count(a2.label) != 1):
+                form = 0
+            n1, n2 = [(a1, a2), (mol.atoms.index(a1), mol.atoms.index(a2)), (a1.label, a2.label)][form]
+            mol.remove_substituent(n1, n2, ap_label=f"L{next(nlabel)}")
             for x in [byid[i] for i in side]:
                 model.delete(x)
             new = [x for x in mol.atoms if id(x) not in before]
